@@ -1060,6 +1060,8 @@ def build_struct(target_host: str, banner: Optional['Banner'], kex: Optional['SS
         res['kex'] = []
         dh_alg_sizes = kex.dh_modulus_sizes()
         for algorithm in kex.kex_algorithms:
+            if len(algorithm.strip()) == 0:  # An empty name-list is parsed as ['']; the text report skips such names as well.
+                continue
             alg_notes = fetch_notes(algorithm, 'kex')
             entry: Any = {
                 'algorithm': algorithm,
@@ -1072,6 +1074,8 @@ def build_struct(target_host: str, banner: Optional['Banner'], kex: Optional['SS
         res['key'] = []
         host_keys = kex.host_keys()
         for algorithm in kex.key_algorithms:
+            if len(algorithm.strip()) == 0:  # An empty name-list is parsed as ['']; the text report skips such names as well.
+                continue
             alg_notes = fetch_notes(algorithm, 'key')
             entry = {
                 'algorithm': algorithm,
@@ -1097,6 +1101,8 @@ def build_struct(target_host: str, banner: Optional['Banner'], kex: Optional['SS
 
         res['enc'] = []
         for algorithm in kex.server.encryption:
+            if len(algorithm.strip()) == 0:  # An empty name-list is parsed as ['']; the text report skips such names as well.
+                continue
             alg_notes = fetch_notes(algorithm, 'enc')
             entry = {
                 'algorithm': algorithm,
@@ -1106,6 +1112,8 @@ def build_struct(target_host: str, banner: Optional['Banner'], kex: Optional['SS
 
         res['mac'] = []
         for algorithm in kex.server.mac:
+            if len(algorithm.strip()) == 0:  # An empty name-list is parsed as ['']; the text report skips such names as well.
+                continue
             alg_notes = fetch_notes(algorithm, 'mac')
             entry = {
                 'algorithm': algorithm,
